@@ -228,6 +228,15 @@ def run(ctx):
                                    "encodings are accepted" % (f.id, fmt(m)[:60], want), loc=f.loc)
     if n_sites < 12:
         ctx.bad(rule, rule + ":try_from_bytes-sites", "expected at least 12 try_from_bytes call sites, found %d" % n_sites, kind="anchor")
+    # the masking sampler entry point is used by the rejection sampler only - never by a decoder
+    callers = sorted(set(f.id for f in ctx.prog.fns if f.body is not None and not ctx.prog.is_test_util(f)
+                         for bi, t in f.body.calls() if t.callee.name == "try_from_random"))
+    key = "%s:who-calls-try_from_random" % rule
+    if callers == ["field::FieldElementExt::from_random_rejection"]:
+        ctx.ok(rule, key, "try_from_random (masking) is called by from_random_rejection only")
+    else:
+        ctx.bad(rule, key, "try_from_random masks the bits above the modulus length; it is called from %s - a decoder using it accepts "
+                           "non-canonical encodings" % [c for c in callers if c != "field::FieldElementExt::from_random_rejection"])
     for nm in ("get_decoded_with_param",):
         try:
             f = ctx.fn(rule, name=nm, id_re=r"^codec::ParameterizedDecode::get_decoded_with_param$")
